@@ -116,30 +116,40 @@ structure Approvals where
   approvers : Option (List String) -- nil when there is no attestation state at all
   deriving Repr, Inhabited
 
+/-- authorization lookup: by path key, predicate re-validated against the key
+(authorization.go:98-138): `.ok none` = not found, `.error` = stored statement does not match -/
+def authFor (A : AttState) (ref : String) (frm : Option Nat) (to : Nat) : Except VE (Option Envelope) :=
+  match (A.auths.reverse.find? (fun a => a.sref == ref && a.sfrom == frm && a.sto == to)) with
+  | none => .ok none
+  | some a => if a.ref == ref && a.frm == frm && a.to == to then .ok (some (envelopeOf a.signers))
+              else .error .other
+
+/-- code-review approvals of every trusted app (verify.go:1003-1059) -/
+def ghApprovers (v : Variant) (P : Policy) (A : AttState) (ref : String) (frm : Option Nat) (to : Nat) :
+    Except VE (List String) :=
+  (P.root.apps.filter (·.trusted)).foldlM (init := ([] : List String)) (fun acc app =>
+    match A.gh.reverse.find? (fun g => g.app == app.name && g.sref == ref && g.sfrom == frm && g.sto == to) with
+    | none => pure acc
+    | some g =>
+      let av : Verifier := { principals := [(keyPrincipal app.key).toPrincipal], threshold := 1 }
+      match av.verify none 0 (some (envelopeOf g.signers)) with
+      | .error _ => (.error .verif : Except VE (List String))
+      | .ok _ =>
+        if !v.f7_ghPredicateNotValidated && !(g.ref == ref && g.frm == frm && g.to == to) then .error .other
+        else pure (acc ++ g.approvers.filter (fun a => !acc.contains a)))
+
 /-- `getApproverAttestationAndKeyIDsForIndex` (verify.go:982-1062) -/
 def approvalsFor (v : Variant) (P : Policy) (A : Option AttState) (ref : String) (frm : Option Nat) (to : Nat) :
     Except VE Approvals :=
   match A with
   | none => .ok { auth := none, approvers := none }
-  | some A => do
-    -- authorization: looked up by path key, predicate re-validated against the key
-    let auth ← match (A.auths.reverse.find? (fun a => a.sref == ref && a.sfrom == frm && a.sto == to)) with
-      | none => pure none
-      | some a => if a.ref == ref && a.frm == frm && a.to == to then pure (some (envelopeOf a.signers))
-                  else (.error .other : Except VE (Option Envelope))
-    -- code-review approvals of every trusted app
-    let trusted := P.root.apps.filter (·.trusted)
-    let approvers ← trusted.foldlM (init := ([] : List String)) (fun acc app => do
-      match A.gh.reverse.find? (fun g => g.app == app.name && g.sref == ref && g.sfrom == frm && g.sto == to) with
-      | none => pure acc
-      | some g =>
-        let av : Verifier := { principals := [(keyPrincipal app.key).toPrincipal], threshold := 1 }
-        match av.verify none 0 (some (envelopeOf g.signers)) with
-        | .error _ => (.error .verif : Except VE (List String))
-        | .ok _ =>
-          if !v.f7_ghPredicateNotValidated && !(g.ref == ref && g.frm == frm && g.to == to) then .error .other
-          else pure (acc ++ g.approvers.filter (fun a => !acc.contains a)))
-    pure { auth := auth, approvers := some approvers }
+  | some A =>
+    match authFor A ref frm to with
+    | .error e => .error e
+    | .ok auth =>
+      match ghApprovers v P A ref frm to with
+      | .error e => .error e
+      | .ok approvers => .ok { auth := auth, approvers := some approvers }
 
 /-! ### verifyGitObjectAndAttestations -/
 
@@ -148,15 +158,21 @@ structure GOpts where
   trusted   : String := ""
   deriving Repr, Inhabited
 
+/-- does principal `p` (not yet counted) match approver identity `a`: a Person that registered `a`
+as its identity for some trusted app (verify.go:1345-1357) -/
+def approverMatches (defs : List PrincipalSpec) (apps : List String) (used : List PId) (a : String)
+    (p : Principal) : Bool :=
+  !used.contains p.id &&
+  (match defs.find? (fun d => d.id == p.id) with
+   | some d => d.person && d.identities.any (fun (app, idn) => apps.contains app && idn == a)
+   | none => false)
+
 /-- approver → principal matching (verify.go:1323-1363): each approver identity credits the first
 not-yet-counted principal of the verifier that registered it for any trusted app. -/
 def creditApprovers (defs : List PrincipalSpec) (apps : List String) (vp : List Principal)
     (approvers : List String) (used : List PId) : List PId :=
   approvers.foldl (fun used a =>
-    match vp.find? (fun p => !used.contains p.id &&
-        (match defs.find? (fun d => d.id == p.id) with
-         | some d => d.person && d.identities.any (fun (app, idn) => apps.contains app && idn == a)
-         | none => false)) with
+    match vp.find? (approverMatches defs apps used a) with
     | some p => used ++ [p.id]
     | none => used) used
 
